@@ -18,6 +18,7 @@ META = {
                   "Slices, HeaderItem-typed keys for deletion and __setattr__ are covered by the bounded run only.",
     "level_note": "Assumes T-enc, static dispatch by declared key type (str / int / HeaderItem specialisations), T-str (upper idempotent). "
                   "numpy calls inside get() (CurveItem branch) are opaque library calls that may raise.",
+    "validate": ['T-str'],
     "trusted": ["T-str"],
     "assumptions": [],
 }
